@@ -10,7 +10,7 @@
    wfw w = "w < 2^64", wfws ws = "16 such words".  Related statements are bundled (one Print Assumptions costs
    about 0.6 s of every run). *)
 From Coq Require Import List Bool ZArith NArith Lia Sorted.
-Require Import BitSet C08_Model C08_Spec C08_Word C08_Iter C08_Set C08_More C08_Check.
+Require Import BitSet C08_Model C08_Spec C08_Word C08_Iter C08_Set C08_More C08_Prog C08_Check.
 Import ListNotations.
 Open Scope Z_scope.
 
@@ -130,6 +130,17 @@ Proof. exact (conj binop_set (conj reverse_set equal1024_spec)). Qed.
 Theorem c08_wordop_spec : forall k w arg, 0 <= arg -> same_set (mem64 (wordop k w arg)) (word_expect k w arg) dom64 = true.
 Proof. exact wordop_spec. Qed.
 
+(* ---- results are fresh values: programs over a pool of bitmaps ---- *)
+(* for every program (constructors, And/Or/OrThenReverse/Reverse results stored as new members, later Set/Unset of any
+   member, every member re-observed after every step) the model's observations are those of independent boolean arrays *)
+Theorem c08_prog_sound : forall ops mp sp, Forall2 R mp sp -> prog_ok (mrun ops mp) (srun ops sp) = true.
+Proof. exact prog_sound. Qed.
+(* in that specification a mutation touches only its target, and producing a result touches no existing member *)
+Theorem c08_fresh_values :
+  (forall k a i pool c, c <> a -> nth c (sstep (PMut k a i) pool) vfalse = nth c pool vfalse) /\
+  (forall o pool c, (forall k a i, o <> PMut k a i) -> (c < length pool)%nat -> nth c (sstep o pool) vfalse = nth c pool vfalse).
+Proof. exact (conj sstep_mut_others sstep_new_keeps). Qed.
+
 (* ---- non-vacuity ---- *)
 Example c08_demo_iter64 :
   (* word {0, 10}, int8, descending, add 127: 10+127 wraps to -119 *)
@@ -168,5 +179,7 @@ Print Assumptions c08_reverse_spec.
 Print Assumptions c08_equal_spec.
 Print Assumptions c08_set_algebra_lists.
 Print Assumptions c08_wordop_spec.
+Print Assumptions c08_prog_sound.
+Print Assumptions c08_fresh_values.
 Print Assumptions c08_demo_iter64.
 Print Assumptions c08_demo_iter1024.
